@@ -163,6 +163,12 @@ class LineCheck:
             cases = self.cases(ctx)
             st = self.correspond(ctx, cases)
             self.judge(ctx, cases, st, pst)
+            # sibling stages: source files anchored by this property that another check's machinery drives (e.g. C01 names
+            # iv_inotify.c / iv_signal.c / iv_wait.c, C18 names iv_fd_pump.c): run that check's correspondence + monitors
+            # (not its proofs) and report what it finds under THIS property
+            self.sub_stats = {}
+            for sub_id, sub_cls in self.sibling_stages():
+                self.run_sibling(ctx, sub_id, sub_cls)
             # thorough tier: further rounds with fresh seeds until the time budget is used (or something fails)
             self.rounds = 1
             if ctx.tier == "thorough":
@@ -188,6 +194,34 @@ class LineCheck:
                                % (self.pid, pst["broken"], pst["log"], len(cases)), has_input=False)
         self.evidence(ctx, cases, st, pst)
         return ctx.verdict.exit_code()
+
+    def sibling_stages(self):
+        """[(id, check class)] whose correspondence stage also decides clauses of this property"""
+        return []
+
+    def run_sibling(self, ctx, sub_id, sub_cls):
+        sub = sub_cls()
+        sctx = Ctx(self.pid, "quick" if ctx.tier == "quick" else "thorough", ctx.seed)
+        sctx.work = os.path.join(ctx.work, "sib_" + sub_id)
+        os.makedirs(sctx.work, exist_ok=True)
+        sctx.verdict = ctx.verdict
+        ok, blog = sub.build(sctx)
+        if not ok:
+            ctx.verdict.report("build", "harness/model build failed",
+                               "build of the %s stage used by %s failed:\n%s" % (sub_id, self.pid, blog[-3000:]), has_input=False)
+            return
+        sc = sub.cases(sctx)
+        if ctx.tier != "quick":
+            pass
+        sst = sub.correspond(sctx, sc)
+        self.sub_stats[sub_id] = {"cases": len(sc), "divergences": len(sst["div"]), "crashes": len(sst["crashes"]),
+                                  "monitor_failures": len(sst["monfail"])}
+        # the sibling's judge reports under ctx.verdict, whose property id is ours; replay files carry the sibling's case
+        # format, so name the stage in the signature
+        old_sig = sub.signature
+        sub.signature = lambda case, why, _o=old_sig, _i=sub_id: "stage_%s_%s" % (_i, _o(case, why))
+        sub.pid = self.pid
+        sub.judge(sctx, sc, sst, {"broken": None})
 
     def judge(self, ctx, cases, st, pst):
         failing = {}
@@ -259,7 +293,8 @@ class LineCheck:
             "divergences": len(st["div"]) if st else 0,
             "impl_crashes": len(st["crashes"]) if st else 0,
             "monitor_failures": len(st["monfail"]) if st else 0,
-            "input_distribution": dict(self.distribution(cases), rounds_with_fresh_seeds=getattr(self, "rounds", 1)),
+            "input_distribution": dict(self.distribution(cases), rounds_with_fresh_seeds=getattr(self, "rounds", 1),
+                                       sibling_stages=getattr(self, "sub_stats", {})),
         }
         vlib.write_evidence(self.pid, ctx.tier, ctx.seed, cov, time.time() - ctx.t0,
                             len(ctx.verdict.violations), list(self.assumptions))
@@ -310,6 +345,15 @@ def main(checks):
 
 def _replay(self, ctx, path):
     """Re-run the case recorded in a replay file on model and implementation."""
+    import re as _re
+    m = _re.search(r"_stage_(C\d\d)_", os.path.basename(path))
+    if m:
+        # recorded by a sibling stage: its case language is that of the sibling check
+        for sid, scls in self.sibling_stages():
+            if sid == m.group(1):
+                sub = scls()
+                sub.pid = self.pid
+                return sub.replay(ctx, path)
     case = None
     for line in open(path):
         if line.startswith("case: "):
